@@ -129,7 +129,7 @@ fn push(b: &mut il::Block, o: Operation) {
     }
 }
 
-/// the probe-confirmed unsound shape, randomised: a diamond whose shorter arm assigns `x` a constant
+/// the shape of the former known finding (repaired), randomised: a diamond whose shorter arm assigns `x` a constant
 /// while the longer arm does not touch it, followed by `y = x op c` and one more location
 fn gen_half_assigned(r: &mut Rng) -> Gen {
     let pool: Vec<Scalar> = vec![il::scalar("a", 32), il::scalar("b", 32), il::scalar("c", 32)];
@@ -495,7 +495,7 @@ fn gen_case(seed: u64, i: u64) -> Case {
     );
     let mut tags: Vec<String> = g.tags.iter().cloned().collect();
     tags.push(format!("result:{}", obs.kind()));
-    tags.push(if da { "def-assigned".into() } else { "kf:not-definitely-assigned".into() });
+    tags.push(if da { "def-assigned".into() } else { "not-def-assigned".into() });
     if let Obs::Ok(m) = &obs {
         if m.values().any(|c| g.pool.iter().any(|s| c.scalar(s).is_some())) {
             tags.push("reports-a-constant".into());
